@@ -52,7 +52,8 @@ def rd_ok(rd): return len(rd) == 8 and rd[0] == 0 and rd[1] <= 2
 
 def fs_comp_ok(c, v6):
     if c[0] == 'p':
-        return c[1] in (1, 2) and c[2] <= (128 if v6 else 32) and c[3] < 256 and (v6 or c[3] == 0)
+        # RFC 8956 3.1: length 0 with offset 0 matches every address; otherwise offset < length < 129
+        return c[1] in (1, 2) and c[2] <= (128 if v6 else 32) and (c[3] == 0 or (v6 and c[3] < c[2]))
     ops = c[2]
     # RFC 8955 4.2.1.1: the end-of-list bit is set in the last <operator, value> pair and only there;
     # the length bits are derived from the value
@@ -75,6 +76,18 @@ def enc_op(o):
     order = 0 if v <= 0xff else 1 if v <= 0xffff else 2 if v <= 0xffffffff else 3
     return [o[0] | (order << 4)] + list(v.to_bytes(1 << order, 'big'))
 
+FS6_FROM_BIT0 = [False]
+
+def fs6_pattern(length, off, addr):
+    """RFC 8956 3.1: <type, length, offset, pattern, padding>: the pattern is the length - offset bits of
+    the address that follow the first [offset] bits, left-aligned and padded to an octet boundary.
+    (The code under test and its decoder -- and GoBGP -- write ceil(length / 8) octets from bit 0 whatever
+    the offset: known finding C04-fs6-prefix-offset; FS6_FROM_BIT0 selects that layout.)"""
+    if FS6_FROM_BIT0[0] or off == 0:
+        return list(addr[:(length + 7) // 8])
+    v = (int.from_bytes(bytes(addr), 'big') << off) & ((1 << 128) - 1)
+    return list(v.to_bytes(16, 'big'))[:(max(length - off, 0) + 7) // 8]
+
 def enc_nlri(n, withdraw=False):
     """the octets of one NLRI as the RFCs lay it out (4271 4.3, 4364 4.3.4, 8277 2, 8955 4 / 8956 3,
     4684 4, 7432 7 / 9136 3, 9830 2.1)"""
@@ -94,9 +107,8 @@ def enc_nlri(n, withdraw=False):
         body = list(n[2] or [])
         for c in n[3]:
             if c[0] == 'p':
-                # (IPv6: length, offset, then -- as the code under test and its decoder do -- ceil(length / 8)
-                # octets from bit 0; RFC 8956 3.1 counts the pattern from the offset: identical for offset 0)
-                body += [c[1], c[2]] + ([c[3]] if n[1] else []) + c[4][:(c[2] + 7) // 8]
+                if n[1]: body += [c[1], c[2], c[3]] + fs6_pattern(c[2], c[3], c[4])
+                else: body += [c[1], c[2]] + c[4][:(c[2] + 7) // 8]
             else:
                 body += [c[1]]
                 for o in c[2]: body += enc_op(o)
@@ -217,7 +229,10 @@ def nlri_key(n, withdraw=False):
 def as_input_kind(n, raw_input):
     """a case that gives its NLRI as wire octets is compared on the RFC encoding of what the peer decoded"""
     if raw_input and n[0] in ('fs', 'rtc', 'evpn', 'srp', 'mup', 'ls'):
-        return ['raw', 0, enc_nlri(n)]
+        # (octets in, octets out: a Flowspec IPv6 prefix with an offset in the layout the crate's decoder read it in)
+        old, FS6_FROM_BIT0[0] = FS6_FROM_BIT0[0], True
+        try: return ['raw', 0, enc_nlri(n)]
+        finally: FS6_FROM_BIT0[0] = old
     return n
 
 def val_to_nlri(v):
@@ -686,6 +701,19 @@ def oracle(c, obs):
     return None
 
 def in_known_class(kf, c, obs, why):
+    if kf.get('id') == 'C04-fs6-prefix-offset':
+        # exactly the known deviation: the case holds an IPv6 Flowspec prefix component with a non-zero
+        # offset, the oracle objects to the NLRI octets, and with the layout of the finding (pattern
+        # counted from bit 0) in place of RFC 8956's the oracle has no objection left
+        m = c['m']
+        if m[0] not in ('reach', 'unreach') or 'NLRI octets of the frames differ' not in (why or ''):
+            return False
+        es = expand_entries(m[4] if m[0] == 'reach' else m[2])
+        if not any(e[1][0] == 'fs' and e[1][1] and any(x[0] == 'p' and x[3] != 0 for x in e[1][3]) for e in es):
+            return False
+        old, FS6_FROM_BIT0[0] = FS6_FROM_BIT0[0], True
+        try: return oracle(c, obs) is None
+        finally: FS6_FROM_BIT0[0] = old
     return False
 
 def nontrivial_key(c, obs):
